@@ -34,6 +34,13 @@ pub struct Profile {
     pub w_disconnect: u32,
     pub w_set_ro: u32,
     pub w_probe: u32,
+    pub w_deliver_corrupt: u32,
+    pub w_recv_corrupt: u32,
+    pub w_crash_corrupt: u32,
+    pub w_id_fuzz: u32,
+    /// mutation classes in use and permille of mutants whose checksum is recomputed
+    pub mut_classes: Vec<crate::mutate::MutClass>,
+    pub fix_checksum_permille: u32,
     // edit op weights
     pub e_put: u32,
     pub e_put_obj: u32,
@@ -61,6 +68,7 @@ pub struct Profile {
     pub keep_actor_permille: u32,
     pub partial_ignore_permille: u32,
     pub migrate_permille: u32,
+    pub unverified_permille: u32,
     /// allow the per-run swarm to zero out families
     pub swarm: bool,
     /// long single-actor chains (to reach clock caches / slab splits)
@@ -102,6 +110,12 @@ impl Default for Profile {
             w_disconnect: 0,
             w_set_ro: 0,
             w_probe: 0,
+            w_deliver_corrupt: 0,
+            w_recv_corrupt: 0,
+            w_crash_corrupt: 0,
+            w_id_fuzz: 0,
+            mut_classes: crate::mutate::ALL_CLASSES.to_vec(),
+            fix_checksum_permille: 700,
             e_put: 20,
             e_put_obj: 8,
             e_insert: 14,
@@ -125,6 +139,7 @@ impl Default for Profile {
             keep_actor_permille: 0,
             partial_ignore_permille: 0,
             migrate_permille: 0,
+            unverified_permille: 100,
             swarm: true,
             long_chain_permille: 30,
             bloom_fp: vec![0],
@@ -286,6 +301,14 @@ fn swarm_scale(rng: &mut Rng, w: u32, on: bool) -> u32 {
     }
 }
 
+pub fn gen_mutation(rng: &mut Rng, p: &Profile) -> crate::mutate::Mutation {
+    crate::mutate::Mutation {
+        class: *rng.pickv(&p.mut_classes),
+        seed: rng.next_u32(),
+        fix_checksum: rng.chance(p.fix_checksum_permille),
+    }
+}
+
 pub fn gen_actor(rng: &mut Rng) -> Vec<u8> {
     // varying lengths and leading bytes so that the sorted actor table order varies
     let n = *rng.pickv(&[1usize, 2, 4, 16, 16]);
@@ -358,6 +381,10 @@ pub fn gen_run(seed: u64, p: &Profile) -> (Cfg, Vec<Ev>) {
         swarm_scale(&mut rng, p.w_disconnect, sw),
         swarm_scale(&mut rng, p.w_set_ro, sw),
         p.w_probe,
+        p.w_deliver_corrupt,
+        p.w_recv_corrupt,
+        p.w_crash_corrupt,
+        p.w_id_fuzz,
     ];
     let mut ew: Vec<u32> = vec![
         p.e_put,
@@ -453,7 +480,7 @@ pub fn gen_run(seed: u64, p: &Profile) -> (Cfg, Vec<Ev>) {
                 },
                 opts: LoadOpts {
                     partial_ignore: rng.chance(p.partial_ignore_permille),
-                    unverified_heads: rng.chance(100),
+                    unverified_heads: rng.chance(p.unverified_permille),
                     migrate_strings: rng.chance(p.migrate_permille),
                     keep_actor: rng.chance(p.keep_actor_permille),
                 },
@@ -478,7 +505,20 @@ pub fn gen_run(seed: u64, p: &Profile) -> (Cfg, Vec<Ev>) {
                 peer: r2,
                 ro: rng.bool(),
             },
-            _ => Ev::Probe { r, arg: rng.next_u32() },
+            24 => Ev::Probe { r, arg: rng.next_u32() },
+            25 => Ev::DeliverCorrupt { from: r2, to: r, pick: rng.next_u32(), m: gen_mutation(&mut rng, p) },
+            26 => Ev::RecvCorrupt { from: r2, to: r, m: gen_mutation(&mut rng, p) },
+            27 => Ev::CrashCorrupt {
+                r,
+                m: gen_mutation(&mut rng, p),
+                opts: LoadOpts {
+                    partial_ignore: rng.chance(p.partial_ignore_permille),
+                    unverified_heads: rng.chance(p.unverified_permille * 3),
+                    migrate_strings: rng.chance(p.migrate_permille),
+                    keep_actor: false,
+                },
+            },
+            _ => Ev::IdFuzz { r, what: rng.below(16) as u8, sel: rng.next_u32(), m: gen_mutation(&mut rng, p) },
         };
         evs.push(ev);
     }
